@@ -10,6 +10,25 @@ use std::collections::HashMap;
 use std::rc::Rc;
 use target_scheme::TargetScheme;
 
+/// Escape a string to embed it in a Scheme string literal: the result denotes exactly `input`.
+pub(crate) fn escape_string(input: &str) -> String {
+    let mut escaped = String::with_capacity(input.len());
+    for c in input.chars() {
+        match c {
+            '\\' => escaped.push_str("\\\\"),
+            '"' => escaped.push_str("\\\""),
+            c => escaped.push(c),
+        }
+    }
+    escaped
+}
+
+/// Escape literal text to embed it in the template of a `format` call: on top of the string
+/// literal escaping, `~` introduces a directive and has to be doubled.
+pub(crate) fn escape_format(input: &str) -> String {
+    escape_string(input).replace('~', "~~")
+}
+
 /// Information collected about the compilation
 pub struct CompiledExpression {
     policy_body: String,
@@ -74,7 +93,7 @@ pub fn compile(
 
 impl CompiledExpression {
     pub fn scheme<S: AsRef<str>>(&self, mdt: S) -> String {
-        let mdt = mdt.as_ref();
+        let mdt = escape_string(mdt.as_ref());
         format!(
             "(use-modules (lipe) (lipe find){})
 
